@@ -42,8 +42,30 @@ def stack_of(ag):
     return [[int(v) for v in r] for r in ag._simplified_command_array], [float(c) for c in ag.constants]
 
 
+def const_chars_ok(c):
+    """Python mirror of `Str.constCharsOK` (Proofs/Lemmas/StrTokenize.lean): hypothesis of `C16.tokenize_sympyStr`"""
+    return len(c) > 0 and all(ch in "0123456789.e+-" for ch in c) and all(i + 1 < len(c) and c[i + 1].isdigit() for i, ch in enumerate(c) if ch == "-")
+
+
+def hypotheses_hold(ctx, rep, const_strings):
+    """the round-trip theorems assume `constTokOK` and `constCharsOK` of every constant string: check that Python's
+    str() of the finite float constants the equations actually carry satisfies both (model predicate through the driver)"""
+    if not ctx.driver_ok or not const_strings:
+        return
+    from harness.common import run_driver
+    strs = sorted(const_strings)
+    outs = run_driver(["consttok ; x" + c.encode().hex() for c in strs])
+    rep.corr_cases += len(strs)
+    for c, o in zip(strs, outs):
+        rep.count("const_hypotheses", "checked")
+        if o != "ok 1" or not const_chars_ok(c):
+            rep.disagree(f"str() of a finite float constant does not satisfy the hypotheses of the C16 round-trip theorems "
+                         f"(constTokOK={o}, constCharsOK={const_chars_ok(c)})", {"constant_string": c})
+
+
 def roundtrip(ctx, rep):
     rng = ctx.rng
+    const_strings = set()
     for t in range(ctx.n(600, 8000)):
         D = rng.choice([1, 2, 3])
         genome = G.random_stack(rng, rng.choice([2, 3, 5, 8, 12, 20]), D, rng.choice(G.OP_SUBSETS), term_prob=0.3,
@@ -57,6 +79,7 @@ def roundtrip(ctx, rep):
         ag.set_local_optimization_params(consts)
         s0, c0 = stack_of(ag)
         text = ag.get_formatted_string("sympy")
+        const_strings.update(str(c) for c in ag.constants if math.isfinite(c))
         raw_literals = None
         for use_simp in (False, True):
             case = {"genome": genome, "consts": consts, "string": text, "use_simplification": use_simp}
@@ -91,7 +114,10 @@ def roundtrip(ctx, rep):
                     break
             if bad:
                 x, a, b = bad
-                if NEG_BEFORE_POW.search(text) or (neg_ints and "**" in text):
+                from harness.mpeval import int_overflow
+                if use_simp and (int_overflow(s0) or any(r[0] == G.INTEGER and abs(r[1]) >= 2 ** 53 for r in s1)):
+                    key = "C16:F3b-int64-wrap"
+                elif NEG_BEFORE_POW.search(text) or (neg_ints and "**" in text):
                     key = "C16:F11b-negative-literal-before-power"
                 elif use_simp and (c0 or raw_literals):
                     key = "C16:F11a-constants-rebound-after-simplification"
@@ -99,6 +125,7 @@ def roundtrip(ctx, rep):
                     key = "C16:roundtrip-differs"
                 rep.violate(f"equation rebuilt from its own sympy string evaluates to {b if b is UNDEF else mpmath.nstr(b, 12)} instead of "
                             f"{mpmath.nstr(a, 12)} at x={x}", key, {**case, "x": x, "rebuilt_stack": s1, "rebuilt_consts": c1})
+    hypotheses_hold(ctx, rep, const_strings)
 
 
 def sympy_strings(ctx, rep):
@@ -148,11 +175,22 @@ def sympy_strings(ctx, rep):
             rep.count("sympy_strings", "rejected")
             continue
         f = sp.lambdify(X, expr, modules="mpmath")
+        # every sub-expression must be real at the point: bingo's sqrt / log are the real-domain sqrt|.| / log|.|, and sympy's
+        # value can be real through a complex intermediate (cos(sqrt(x)) = cosh(sqrt(-x)) for x < 0), which is outside the property
+        subs_ = [e for e in sp.preorder_traversal(expr) if not e.is_Atom]
+        fsub = sp.lambdify(X, subs_, modules="mpmath") if subs_ else None
         for _ in range(3):
             x = [G.nice_value(rng) for _ in range(3)]
             try:
                 want = f(*[mpmath.mpf(v) for v in x])
                 want = mpmath.mpmathify(want)
+                if True:
+                    inter = [mpmath.mpmathify(v) for v in fsub(*[mpmath.mpf(v) for v in x])] if fsub is not None else []
+                    if any(isinstance(v, mpmath.mpc) and abs(v.imag) > mpmath.mpf("1e-40") for v in inter) or \
+                            any(not mpmath.isfinite(v) or abs(v) > mpmath.mpf("1e300") for v in inter + [want]):
+                        # (values beyond the binary64 range are infinite for bingo: not "finite" in floating point)
+                        rep.count("sympy_strings", "point skipped: complex or non-finite intermediate")
+                        continue
             except Exception:
                 continue
             if isinstance(want, mpmath.mpc):
@@ -170,6 +208,46 @@ def sympy_strings(ctx, rep):
                 rep.violate(f"sympy string parsed to a different function: sympy value {mpmath.nstr(want, 12)}, bingo value "
                             f"{got if got is UNDEF else mpmath.nstr(got, 12)} at {x}", key, {"string": text, "stack": s1, "consts": c1, "x": x})
                 break
+
+
+def sharing_strings(ctx, rep):
+    """strings over very few atoms in which the same operands meet the same non-commutative operator in both orders: the
+    parser's sharing of repeated sub-expressions must keep operand order; oracle = the tree the string was printed from"""
+    rng = ctx.rng
+    for t in range(ctx.n(400, 5000)):
+        text, tree = G.share_expr(rng, rng.choice([1, 2, 2, 3]))
+        want_stack = G.tree_to_stack(tree, share=False)
+        rep.case(("sharing", text), True)
+        for use_simp in (False, True):
+            rep.count("sharing_strings", f"simplification={use_simp}")
+            try:
+                with warnings.catch_warnings():
+                    warnings.simplefilter("ignore")
+                    ag = AGraph(equation=text, use_simplification=use_simp)
+                    s1, c1 = stack_of(ag)
+            except (MemoryError, OverflowError, RecursionError):
+                continue
+            except Exception as exc:
+                rep.violate(f"a well-formed equation string is rejected: {type(exc).__name__}: {exc}", "C16:sharing-rejected",
+                            {"string": text, "use_simplification": use_simp})
+                continue
+            for _ in range(3):
+                x = [G.nice_value(rng) for _ in range(2)]
+                try:
+                    a, mx = mp_eval(want_stack, x, [], want_max=True)
+                    b = mp_eval(s1, x, c1)
+                except (Skip, Exception):
+                    continue
+                if a is UNDEF:
+                    continue
+                if not agree(a, b, mx):
+                    from harness.mpeval import int_overflow
+                    key = "C16:string-misparsed"
+                    if use_simp and int_overflow(want_stack):
+                        key = "C16:F3b-int64-wrap"
+                    rep.violate(f"string parsed to a different function: written {mpmath.nstr(a, 12)}, bingo {b if b is UNDEF else mpmath.nstr(b, 12)} at {x}",
+                                key, {"string": text, "use_simplification": use_simp, "stack": s1, "consts": c1, "x": x})
+                    break
 
 
 def run(ctx, rep):
@@ -199,6 +277,7 @@ def run(ctx, rep):
                 rep.disagree("printer / parser: model and code disagree", m)
     roundtrip(ctx, rep)
     sympy_strings(ctx, rep)
+    sharing_strings(ctx, rep)
 
 
 def replay(ctx, rep, rp):
